@@ -212,6 +212,16 @@ static void emit_rand(const std::vector<uint64_t> & ks) {
     l << "|"; l.nums(o); l << e.pos; l.emit();
 }
 
+// raw 64-bit draws (finer than the 2^-53 grid below 1/2): the spacings are then rounded by the double subtraction
+static void emit_rand_raw(Rng & rng, size_t m) {
+    ScriptEngine e; for (size_t i = 0; i < m; ++i) { uint64_t v = rng.next(); if (rng.coin(1, 4)) v >>= (unsigned)rng.below(40); e.w.push_back((uint32_t)(v & 0xffffffffu)); e.w.push_back((uint32_t)(v >> 32)); }
+    Line l; l << "C08" << "rand" << m;
+    { ScriptEngine c = e; std::uniform_real_distribution<double> d(0.0, 1.0); for (size_t i = 0; i < m; ++i) l << d(c); }
+    AI::ProbabilityVector b = AI::makeRandomProbability(m + 1, e);
+    std::vector<double> o(b.data(), b.data() + b.size());
+    l << "|"; l.nums(o); l << e.pos; l.emit();
+}
+
 // ---------------------------------------------------------------- VoseAliasSampler
 // The table is private; it is reconstructed from behaviour.  For column i the sampler returns i
 // while frac(x) < prob_[i] and alias_[i] afterwards (x = draw from uniform_real(0,n)); the switch
@@ -445,7 +455,8 @@ void verif::verif_case(Rng & rng, long idx, const std::string & tier) {
         case 3: {
             size_t m = (size_t)rng.range(0, (long)maxN);
             std::vector<uint64_t> ks(m);
-            int mode = (int)rng.below(4);
+            int mode = (int)rng.below(5);
+            if (mode == 4) { std::printf("#stat rand_mode4 1\n"); emit_rand_raw(rng, m); break; }
             for (auto & k : ks) k = mode == 0 ? (rng.next() >> 11) : mode == 1 ? (rng.below(9) * (TWO53 / 8)) : mode == 2 ? rng.below(4) : TWO53 - 1 - rng.below(4);
             for (auto & k : ks) if (k >= TWO53) k = TWO53 - 1;
             std::printf("#stat rand_mode%d 1\n", mode);
